@@ -118,7 +118,7 @@ def _examine(ctx, behs, tag):
 
 
 def run(ctx):
-    mc = vlib.tlc_mc(ctx, "Epochs", ctx.pick("Epochs_mcq.cfg", "Epochs_mc.cfg"), timeout=ctx.pick(900, 3000))
+    mc = vlib.tlc_mc(ctx, "Epochs", ctx.pick("Epochs_mcq.cfg", "Epochs_mc.cfg"), timeout=ctx.pick(1800, 3600))
     if mc["violated"]:
         raise vlib.Infra("design-level spec (with the F30 repair) violates %s; spec must be repaired (see %s)" % (
             mc["violated"], mc["outfile"]))
